@@ -3526,8 +3526,8 @@ func (t *CompensateEventDefinition) FindBy(f ElementPredicate) (result Element, 
 func (t *CompensateEventDefinition) WaitForCompletion() (result bool, present bool) {
 	if t.WaitForCompletionField != nil {
 		present = true
+		result = *t.WaitForCompletionField
 	}
-	result = *t.WaitForCompletionField
 	return
 }
 func (t *CompensateEventDefinition) SetWaitForCompletion(value *bool) {
@@ -9536,8 +9536,8 @@ func (t *Process) SetIsClosed(value *bool) {
 func (t *Process) IsExecutable() (result bool, present bool) {
 	if t.IsExecutableField != nil {
 		present = true
+		result = *t.IsExecutableField
 	}
-	result = *t.IsExecutableField
 	return
 }
 func (t *Process) SetIsExecutable(value *bool) {
@@ -10493,8 +10493,8 @@ func (t *ResourceParameter) SetType(value *QName) {
 func (t *ResourceParameter) IsRequired() (result bool, present bool) {
 	if t.IsRequiredField != nil {
 		present = true
+		result = *t.IsRequiredField
 	}
-	result = *t.IsRequiredField
 	return
 }
 func (t *ResourceParameter) SetIsRequired(value *bool) {
